@@ -39,14 +39,13 @@ Print Assumptions retained_files_exist_partial_own_reachable.
 
 (* 2. an erroring / unreachable neighbour means keep *)
 Theorem neighbour_error_means_keep : forall w x o lo hi,
-  o_fromdoc o = true -> x_own x = OwnRange lo hi -> ((lo <=? o_lo o) && (o_hi o + 1 <=? hi) = false) ->
-  x_nb x = NbErr -> cleanup_deletes w x o = false.
+  o_fromdoc o = true -> x_own x = OwnRange lo hi -> x_nb x = NbErr -> cleanup_deletes w x o = false.
 Proof. exact neighbour_error_keeps. Qed.
 Print Assumptions neighbour_error_means_keep.
 
 (* 3. a live neighbour that references the table in any checkpoint of its list - loaded or taken by itself - keeps it *)
 Theorem neighbour_need_means_keep : forall w x o lo hi y,
-  o_fromdoc o = true -> x_own x = OwnRange lo hi -> ((lo <=? o_lo o) && (o_hi o + 1 <=? hi) = false) ->
+  o_fromdoc o = true -> x_own x = OwnRange lo hi ->
   x_nb x = NbLive -> In y (g_dbs w) -> is_live y = true -> needs_table y (o_name o) = true ->
   cleanup_deletes w x o = false.
 Proof. exact neighbour_needs_keeps. Qed.
